@@ -66,6 +66,10 @@ type Edge struct {
 	// Keep: never degrade this embedded mention to a reference and do not normalise it away: an embedded same-host copy of
 	// a node whose home no longer serves it is used as is by servitor (and is valid), while references to it fail
 	Keep bool
+	// Via: how a reference (Mode "url") is spelled: "" the target's address; "alias" another address on the target's host that
+	// redirects to it; "relative" an absolute-path reference, wherever the document that carries it is served by the target's host
+	Via   string
+	alias string
 }
 
 type Coll struct {
@@ -166,6 +170,18 @@ func (w *World) edgeJSON(e *Edge, servingHost string, depth int) any {
 	}
 	switch e.Mode {
 	case "url":
+		switch e.Via {
+		case "alias":
+			if e.alias == "" {
+				e.alias = fmt.Sprintf("https://%s/alias/%d", e.To.Host, nextSerial())
+			}
+			w.redir[e.alias] = e.To.ID
+			return e.alias
+		case "relative":
+			if u, err := url.Parse(e.To.ID); err == nil && servingHost == e.To.Host {
+				return u.RequestURI()
+			}
+		}
 		return e.To.ID
 	case "stub":
 		t := "Note"
@@ -444,6 +460,13 @@ func (c *Coll) AddPage(items []*Edge) {
 func (w *World) SetDoc(addr string, doc map[string]any) {
 	w.mu.Lock()
 	w.docs[addr] = doc
+	w.mu.Unlock()
+}
+
+// SetRaw makes an address answer with the given bytes as they are.
+func (w *World) SetRaw(addr string, raw []byte) {
+	w.mu.Lock()
+	w.raw[addr] = raw
 	w.mu.Unlock()
 }
 
